@@ -181,6 +181,10 @@ func DrawBundle(c *core.Ctx, maxEx int, withSigs bool) *LBundle {
 	lb := &LBundle{Order: map[string][]int{}}
 	lb.Version = c.PickStr("bundle.version", "b1", "b2")
 	n := c.Int("bundle.nex", 0, maxEx)
+	if maxEx >= 4 && c.Chance("bundle.many", 1, 25) {
+		// counts around the CBOR head-size steps of the responses array and the index map
+		n = c.PickInt("bundle.nexMany", 23, 24, 25, 26, 255, 256, 257)
+	}
 	uniq := 0
 	for i := 0; i < n; i++ {
 		u := DrawURL(c, "bundle.url", uniq, lb.Version == "b2", "")
@@ -189,7 +193,11 @@ func DrawBundle(c *core.Ctx, maxEx int, withSigs bool) *LBundle {
 			continue
 		}
 		lb.Order[u] = []int{len(lb.Exchanges)}
-		lb.Exchanges = append(lb.Exchanges, LExchange{URL: u, Resp: DrawResp(c, "bundle.resp", uniq)})
+		r := DrawResp(c, "bundle.resp", uniq)
+		if n > 30 && len(r.Body) > 300 {
+			r.Body = r.Body[:300]
+		}
+		lb.Exchanges = append(lb.Exchanges, LExchange{URL: u, Resp: r})
 		uniq++
 	}
 	if lb.Version == "b1" {
